@@ -39,7 +39,7 @@ META = dict(
                  "single-threaded XLA/BLAS in all processes"],
     need=["context_exits_checked", "exception_exits_checked", "context_draw_replays", "process_runs",
           "digest_sets_compared", "map_settings_compared", "history_pairs_compared"],
-    quick=dict(cases=480, workers=8, budget_s=80),
+    quick=dict(cases=480, workers=14, budget_s=80),
     thorough=dict(cases=6000, workers=16, budget_s=1200),
     design_ref="DESIGN.md §5 C21",
     level_text="generated RNG-context programs with a stack monitor + differential runs across processes/strategies",
@@ -304,7 +304,7 @@ def proc_case(ck, rng, i):
 
 # ------------------------------------------------------------------ maps ------
 MAPS = ("vmap", "lmap", "smap")
-PERIOD = 40      # one proc case and one maps case per 40 cases (they cost 10-30 s each)
+PERIOD = 60      # one proc case and one maps case per 40 cases (they cost 10-30 s each)
 
 
 def maps_case(ck, rng, i):
